@@ -83,6 +83,48 @@ def _check_value(X, v, where):
     return rec
 
 
+def h_unencodable_str(X):
+    """str values that UTF-8 cannot encode (lone surrogates): refusing to write them is allowed (and is what the code
+    does today: outside the round-trip claim), but anything that WAS written must load back -- a writer that emits a
+    record the strict reader rejects loses that flow and every flow after it"""
+    from mitmproxy.io import FlowReader, FlowWriter, tnetstring
+    from mitmproxy.test import tflow
+
+    s = X.choose("text", ["\udc80", "a\ud800", "\udfffz", "ok\udcff\u20ac"])
+    where = X.choose("where", ["top", "list", "dict-value", "flow-comment", "flow-metadata"])
+    if where in ("top", "list", "dict-value"):
+        v = s if where == "top" else ([1, s] if where == "list" else {"k": s})
+        try:
+            rec = tnetstring.dumps(v)
+        except (ValueError, UnicodeError):
+            X.reach("writer-refuses")
+            return
+        X.reach("written")
+        try:
+            back = tnetstring.loads(rec)
+        except (ValueError, TypeError, IndexError) as e:
+            X.fail("C36/tnet/unencodable-str/written-but-unreadable", f"dumps({v!r}) wrote {rec!r}, which loads() rejects: {type(e).__name__}: {e}")
+        X.check(F.typed_eq(back, F.norm(v)), "C36/tnet/unencodable-str/roundtrip", f"{v!r} -> {back!r}")
+        return
+    f1, f2 = tflow.tflow(resp=True), tflow.ttcpflow()
+    if where == "flow-comment":
+        f1.comment = s
+    else:
+        f1.metadata["note"] = s
+    buf = _io.BytesIO()
+    w = FlowWriter(buf)
+    try:
+        w.add(f1)
+    except (ValueError, UnicodeError):
+        X.reach("writer-refuses")
+        return
+    X.reach("written")
+    w.add(f2)
+    flows, outcome = F.read_stream(buf.getvalue())
+    X.check(outcome == "clean" and len(flows) == 2, "C36/file/unencodable-str/written-but-unreadable",
+            f"a flow with {where} = {s!r} was written, but reading the file gives {len(flows)} flows and {outcome}")
+
+
 def h_tnet(X):
     v = F.shaped_value(X)
     X.reach({type(None): "leaf", bool: "leaf", int: "int", float: "leaf", bytes: "leaf", str: "leaf", list: "list", tuple: "list", dict: "dict"}[type(v)])
@@ -354,6 +396,9 @@ def obligations(tier):
     q = tier == "quick"
     maxlen = 130 if q else 1100
     obs = [
+        Symx("unencodable-str", h_unencodable_str,
+             bounds="4 strings with lone surrogates x {top level, list element, dict value, flow comment, flow metadata}: the writer refuses, or what it wrote loads back (file: followed by a second flow)",
+             encoded=ENCODED, must_reach=["writer-refuses"]),
         Symx("tnet-roundtrip", h_tnet,
              bounds="values: None/True/False, ints +-(lead*10^(k-1)+tail | 10^(k-1) | 10^k-1) for k=1..20 digits, 9 floats incl. -0.0/inf/denormal, "
                     "bytes <= 2 over 8 adversarial bytes, str <= 2 over 7 code points (1-4 byte UTF-8, delimiters), list/tuple/dict of <= 2 "
